@@ -695,7 +695,12 @@ class MemorizedFunc(Logger):
             # objects, as it ends up being too fragile
             func_hash = self._hash_func()
             try:
-                _FUNCTION_HASHES[self.func] = func_hash
+                # The code is recorded per store location: the same function
+                # can be cached at several locations by one process, and
+                # each of them needs its own copy of the code.
+                _FUNCTION_HASHES.setdefault(self.func, {})[
+                    self.store_backend.location
+                ] = func_hash
             except TypeError:
                 # Some callable are not hashable
                 pass
@@ -715,7 +720,9 @@ class MemorizedFunc(Logger):
                 # hash. This is more likely to falsely change than have hash
                 # collisions, thus we are on the safe side.
                 func_hash = self._hash_func()
-                if func_hash == _FUNCTION_HASHES[self.func]:
+                if func_hash == _FUNCTION_HASHES[self.func].get(
+                    self.store_backend.location
+                ):
                     return True
         except TypeError:
             # Some callables are not hashable
